@@ -257,6 +257,13 @@ def run(ctx):
             # incoherent: provenance of the zero-delay track, read back from the coded data
             coded = True
         ol, first, stride = obs_lit(y, rng)
+        # (M) an empty result whose stop_time does not come after its start_time (as the Time objects compare) contains nothing, not even
+        # those coincident edges.  (Where Time arithmetic leaves start + 0 s one ulp later, membership of the start is the code's documented
+        # edge rule - the model's clause leaves those probes unconstrained.)
+        if len(y) == 0 and y.start_time is not None and not (y.start_time < y.stop_time):
+            ctx.count('empty_result_probed')
+            if bool(y.contains(y.start_time)) or bool(y.contains(y.stop_time)):
+                ctx.fail('empty_signal_contains_its_edge', inp, impl=[bool(y.contains(y.start_time)), bool(y.contains(y.stop_time))])
         if getattr(y, '_coded', True):
             if not X.coded_consistent(y, first if first is not None else 0, stride):
                 ctx.fail('data_not_an_affine_subset', inp, impl='index-coded data of the result is not first+stride*k')
